@@ -1,6 +1,7 @@
 """C06 — genome, transcript and CDS coordinate systems of a transcript commute."""
 import itertools
 
+WARM_TWINS = {"quick": 0.02, "thorough": 0.05}      # engine: call-history twins (harness/warm.py)
 ID = "C06"
 LEAN_MODULE = "BioCantor.Props.C06"
 DESIGN_REF = "4/C06"
